@@ -7,24 +7,24 @@ From WV Require Import Lib.Conc Model.ChanFlow Proof.ChanFlow.
 Import ListNotations.
 Local Open Scope Z_scope.
 
-Definition p_f23 : params := mkP 0 1 0 [([1;1], false)] false.
+Definition p_f23 : params := mkP 0 1 0 [([1;1], false)] false false true true.
 Definition s_f23 : list choice :=
   [CIo SRBlock 0; CIo SRBlock 0; CIo SRBlock 0; CIo SRBlock 0; CIo SRBlock 0; CIo SRBlock 0; CIo SRBlock 0; CEnv EArrive; CIo SRBlock 0; CIo SRBlock 0; CIo SRBlock 0; CIo SRBlock 0; CIo SRBlock 0; CIo SRBlock 0; CIo SRBlock 0; CIo SRBlock 0; CIo SRBlock 0; CIo SRBlock 0; CW SRBlock; CW SRBlock; CW SRBlock; CW SRBlock; CW SRBlock; CW SRBlock; CIo SRBlock 0; CW SRBlock; CW SRBlock; CW SRBlock; CW SRBlock; CW SRBlock; CW SRBlock; CW SRBlock; CIo SRBlock 0; CIo SRBlock 0; CIo SRBlock 0; CW SRBlock; CIo SRBlock 0; CIo (SR 1) 0; CIo SRBlock 0; CIo SRBlock 0; CIo SRBlock 0; CIo SRBlock 0; CIo SRBlock 0; CIo SRBlock 0; CIo SRBlock 0; CIo SRBlock 0; CIo SRBlock 0; CIo SRBlock 0].
 
-Definition p_spin : params := mkP 1 3 0 [([2;1], false)] false.
+Definition p_spin : params := mkP 1 3 0 [([2;1], false)] false true false true.
 Definition s_spin : list choice :=
   [CIo SRBlock 0; CIo SRBlock 0; CIo SRBlock 0; CIo SRBlock 0; CIo SRBlock 0; CIo SRBlock 0; CIo SRBlock 0; CEnv EStall; CEnv EArrive; CIo SRBlock 0; CIo SRBlock 0; CIo SRBlock 0; CIo SRBlock 0; CIo SRBlock 0; CIo SRBlock 0; CIo SRBlock 0; CIo SRBlock 0; CIo SRBlock 0; CIo SRBlock 0; CW SRBlock; CW SRBlock; CW SRBlock; CW SRBlock; CW SRBlock; CW SRBlock; CIo SRBlock 0; CW SRBlock; CW SRBlock; CW SRBlock; CW SRBlock; CW SRBlock; CIo SRBlock 0; CIo SRBlock 0; CIo SRBlock 0; CIo SRBlock 0; CIo SRBlock 0; CW SRBlock; CEnv EResume].
 
-Definition p_eq : params := mkP 2 3 0 [([3;1], false)] false.
+Definition p_eq : params := mkP 2 3 0 [([3;1], false)] false false true true.
 Definition s_eq : list choice :=
   [CIo SRBlock 0; CIo SRBlock 0; CIo SRBlock 0; CIo SRBlock 0; CIo SRBlock 0; CIo SRBlock 0; CIo SRBlock 0; CEnv EArrive; CIo SRBlock 0; CIo SRBlock 0; CIo SRBlock 0; CIo SRBlock 0; CIo SRBlock 0; CIo SRBlock 0; CIo SRBlock 0; CIo SRBlock 0; CIo SRBlock 0; CIo SRBlock 0; CW SRBlock; CW SRBlock; CW SRBlock; CW SRBlock; CW SRBlock; CW SRBlock; CIo SRBlock 0; CW SRBlock; CW SRBlock; CW SRBlock; CW SRBlock; CW SRBlock; CW SRBlock; CW SRBlock; CIo SRBlock 0; CIo SRBlock 0; CIo SRBlock 0; CW SRBlock; CIo SRBlock 0; CIo (SR 1) 0; CIo SRBlock 0; CIo SRBlock 0; CIo SRBlock 0; CIo SRBlock 0; CIo SRBlock 0; CIo SRBlock 0; CIo SRBlock 0; CIo SRBlock 0; CIo SRBlock 0].
 
-Definition p_tail : params := mkP 2 1 1 [([3], false); ([1], true)] true.
+Definition p_tail : params := mkP 2 1 1 [([3], false); ([1], true)] true true true false.
 Definition s_tail : list choice :=
   [CIo SRBlock 0; CIo SRBlock 0; CIo SRBlock 0; CIo SRBlock 0; CIo SRBlock 0; CIo SRBlock 0; CIo SRBlock 0; CEnv EArrive; CIo SRBlock 0; CIo SRBlock 0; CIo SRBlock 0; CIo SRBlock 0; CIo SRBlock 0; CIo SRBlock 0; CIo SRBlock 0; CIo SRBlock 0; CIo SRBlock 0; CIo SRBlock 0; CIo SRBlock 0; CW SRBlock; CW SRBlock; CW SRBlock; CW SRBlock; CW SRBlock; CW SRBlock; CIo SRBlock 0; CW SRBlock; CW SRBlock; CW SRBlock; CEnv EArrive; CIo SRBlock 0; CIo SRBlock 0; CIo SRBlock 0; CIo SRBlock 0; CIo SRBlock 0; CIo SRBlock 0; CIo SRBlock 0; CIo SRBlock 0; CIo SRBlock 0; CIo SRBlock 0; CIo SRGone 0; CW SRBlock; CW SRBlock; CIo SRBlock 3; CIo SRBlock 0; CIo SRBlock 0; CIo SRBlock 0; CIo SRBlock 0; CIo SRBlock 0; CIo SRBlock 0; CIo SRBlock 0; CIo SRBlock 0; CIo SRBlock 0; CW SRBlock; CW SRBlock; CW SRBlock; CW SRBlock; CIo SRBlock 0; CIo SRBlock 0].
 
 
-(* F23: high_watermark = 0.  The producer is parked with total_outbufs_len = 0, the
+(* OLD SHAPE fx_notify_le = false (before 6aba4bf), F23: high_watermark = 0.  The producer is parked with total_outbufs_len = 0, the
    client reads, the I/O thread is blocked in select (writable() is false), the
    trigger is not pulled: nobody will ever notify. *)
 Lemma wit_hw_zero :
@@ -33,7 +33,7 @@ Lemma wit_hw_zero :
   /\ total s = 0 /\ pending s = 0 /\ connected s = true /\ in_map s = true.
 Proof. vm_compute. repeat split; try reflexivity; try (intro; discriminate). Qed.
 
-(* high_watermark < total < send_bytes: the producer is parked, the socket is
+(* OLD SHAPE fx_drain = false (before daf1a85): high_watermark < total < send_bytes: the producer is parked, the socket is
    writable, handle_write selects no flush (a task is running and total <
    send_bytes): the I/O thread spins, nothing is ever sent *)
 Lemma wit_below_send_bytes :
@@ -42,7 +42,7 @@ Lemma wit_below_send_bytes :
   /\ hw p_spin < total s /\ total s < sb p_spin /\ connected s = true.
 Proof. vm_compute. repeat split; try reflexivity; try (intro; discriminate). Qed.
 
-(* the drain stops exactly at the mark (1 <= total = high_watermark < send_bytes): the
+(* OLD SHAPE fx_notify_le = false: the drain stops exactly at the mark (1 <= total = high_watermark < send_bytes): the
    consumer's test "total < high_watermark" fails, so no notify, although the
    producer's loop condition "total > high_watermark" is false *)
 Lemma wit_at_mark :
@@ -51,20 +51,20 @@ Lemma wit_at_mark :
   /\ total s = hw p_eq /\ total s < sb p_eq /\ connected s = true.
 Proof. vm_compute. repeat split; try reflexivity; try (intro; discriminate). Qed.
 
-(* lookahead >= 1: service() reads total > high_watermark without the lock, the I/O
+(* OLD SHAPE fx_recheck = false (before 7fa6a60), lookahead >= 1: service() reads total > high_watermark without the lock, the I/O
    thread closes the channel, the worker then flushes a closed channel whose first
    outbuf still reports bytes, takes the exception path and waits: connected =
    False, the channel has left the map, nobody will notify *)
 Lemma wit_tail_race :
   let s := run p_tail s_tail in
   1 <= hw p_tail /\ sb p_tail <= hw p_tail /\ quiescent s = true /\ w_parked s = true
-  /\ connected s = false /\ in_map s = false /\ wk s = WFbParkedE FS false.
+  /\ connected s = false /\ in_map s = false /\ wk s = WFbParkedE FS false /\ io s = IoSel false false.
 Proof. vm_compute. repeat split; try reflexivity; try (intro; discriminate). Qed.
 
 
 (* ---- examples: the hypotheses / conclusions of the theorems are met by reachable states ---- *)
 
-Definition p_tight : params := mkP 2 100 0 [([2;3], false)] false.
+Definition p_tight : params := mkP 2 100 0 [([2;3], false)] false true true true.
 Definition s_tight : list choice :=
   [CIo SRBlock 0; CIo SRBlock 0; CIo SRBlock 0; CIo SRBlock 0; CIo SRBlock 0; CIo SRBlock 0; CIo SRBlock 0; CEnv EArrive; CIo SRBlock 0; CIo SRBlock 0; CIo SRBlock 0; CIo SRBlock 0; CIo SRBlock 0; CIo SRBlock 0; CIo SRBlock 0; CIo SRBlock 0; CIo SRBlock 0; CIo SRBlock 0; CW SRBlock; CW SRBlock; CW SRBlock; CW SRBlock; CW SRBlock; CW SRBlock; CW SRBlock; CW SRBlock; CW SRBlock; CW SRBlock].
 (* the bound is attained: pending = high_watermark + last write *)
@@ -72,7 +72,7 @@ Example ex_bound_tight :
   let s := run p_tight s_tight in pending s = 5 /\ hw p_tight = 2 /\ last_write s = 3 /\ total s = 5.
 Proof. vm_compute. repeat split. Qed.
 
-Definition p_abort : params := mkP 2 1 0 [([3;1], false)] false.
+Definition p_abort : params := mkP 2 1 0 [([3;1], false)] false true true true.
 Definition s_abort : list choice :=
   [CIo SRBlock 0; CIo SRBlock 0; CIo SRBlock 0; CIo SRBlock 0; CIo SRBlock 0; CIo SRBlock 0; CIo SRBlock 0; CEnv EArrive; CIo SRBlock 0; CIo SRBlock 0; CIo SRBlock 0; CIo SRBlock 0; CIo SRBlock 0; CIo SRBlock 0; CIo SRBlock 0; CIo SRBlock 0; CIo SRBlock 0; CIo SRBlock 0; CW SRBlock; CW SRBlock; CW SRBlock; CW SRBlock; CW SRBlock; CW SRBlock; CW SRBlock; CW SRBlock; CW SRBlock; CW SRBlock; CW SRBlock; CW SRBlock; CW SRBlock; CEnv EGone; CIo SRBlock 0; CIo SRBlock 0; CIo SRBlock 0; CIo SRBlock 0; CIo SRBlock 0; CIo SRBlock 0; CIo SRBlock 0; CIo SRBlock 0; CIo SRBlock 0; CIo SRBlock 0; CIo SRBlock 0; CIo SRBlock 0; CIo SRBlock 0; CW SRBlock; CIo SRBlock 0; CIo SRBlock 0; CIo SRGone 0; CIo SRBlock 0; CIo SRBlock 0].
 (* a producer parked above the mark while handle_close runs: the state C12_abort talks about *)
@@ -95,7 +95,7 @@ Fixpoint steps_io (p : params) (s : state) (n : nat) : option state :=
   end.
 
 Lemma spin_cycle p s : io_spinning p s = true ->
-  steps_io p s 9 = Some s \/ steps_io p s 10 = Some s.
+  steps_io p s 9 = Some s \/ steps_io p s 10 = Some s \/ steps_io p s 11 = Some s.
 Proof.
   intros H. ds s. unfold io_spinning in H. cbn in H.
   destruct io0; try discriminate. destruct r; try discriminate. destruct w; try discriminate.
@@ -105,9 +105,14 @@ Proof.
   assert (Z2 : (sb p <=? total0) = false) by (apply Z.leb_gt; assumption).
   assert (Z3 : (total0 =? 0) = false) by (apply Z.eqb_neq; lia).
   assert (Z4 : (nreq0 =? 0)%nat = false) by (apply Nat.eqb_neq; lia).
-  destruct (look p <? nreq0)%nat eqn:Z5; [left|right].
+  assert (Z6 : fx_drain p = true -> (hw p <? total0) = false).
+  { intros F. match goal with X : negb (fx_drain p) || _ = true |- _ => rewrite F in X; cbn in X; apply Z.leb_le in X end.
+    apply Z.ltb_ge. assumption. }
+  destruct (fx_drain p) eqn:Z7; [specialize (Z6 eq_refl)|clear Z6];
+    (destruct (look p <? nreq0)%nat eqn:Z5).
+  1: right; left. 2: right; right. 3: left. 4: right; left.
   all: cbn [steps_io].
-  all: do 10 (try (unfold step_io at 1; cbn -[steps_io step_io]; unfold rdy_r, rdy_w, to_top; cbn -[steps_io step_io];
-         rewrite ?Z1, ?Z2, ?Z3, ?Z4, ?Z5, ?orb_false_r, ?andb_false_r; cbn -[steps_io step_io])).
+  all: do 11 (try (unfold step_io at 1; cbn -[steps_io step_io]; unfold rdy_r, rdy_w, to_top; cbn -[steps_io step_io];
+         rewrite ?Z1, ?Z2, ?Z3, ?Z4, ?Z5, ?Z6, ?Z7, ?orb_false_r, ?andb_false_r; cbn -[steps_io step_io])).
   all: reflexivity.
 Qed.
